@@ -46,6 +46,24 @@ type lockCtx struct {
 	fn    *ssa.Function
 	class *types.Var
 	entry int
+	envK  string
+	env   *Env // not part of identity beyond envK; pointer so the struct stays comparable
+}
+
+func mkCtx(fn *ssa.Function, c *types.Var, entry int, env Env) lockCtx {
+	k := env.Key()
+	return lockCtx{fn: fn, class: c, entry: entry, envK: k, env: internEnv(k, env)}
+}
+
+var envIntern = map[string]*Env{}
+
+func internEnv(k string, e Env) *Env {
+	if p, ok := envIntern[k]; ok {
+		return p
+	}
+	c := e
+	envIntern[k] = &c
+	return &c
 }
 
 type lstate struct {
@@ -275,7 +293,7 @@ func (le *LockEngine) Run() {
 	for _, c := range le.Classes {
 		le.abs[c] = map[ssa.Instruction]map[int]bool{}
 		for _, r := range le.Roots {
-			exits := le.summary(lockCtx{r, c, LS0})
+			exits := le.summary(mkCtx(r, c, LS0, Env{}))
 			for s := range exits {
 				if s != LS0 {
 					le.issue(LockIssue{Class: c, Kind: "exit-held", Fn: r, Ctx: "root", Ins: r.Blocks[0].Instrs[0]})
@@ -403,7 +421,7 @@ func (le *LockEngine) callEffect(ctx lockCtx, ins ssa.Instruction, ls int) map[i
 		}
 		return out
 	}
-	edges := le.w.CG.SiteOut[ins]
+	edges := le.w.CG.CalleesCtx(ins, *ctx.env, le.w.TS)
 	any := false
 	for _, e := range edges {
 		if e.Mode == ModeGo {
@@ -411,7 +429,7 @@ func (le *LockEngine) callEffect(ctx lockCtx, ins ssa.Instruction, ls int) map[i
 		}
 		if !le.touch[ctx.class][e.Callee] {
 			// still record absolute states inside (for guarded-by rules)
-			le.summary(lockCtx{e.Callee, ctx.class, ls})
+			le.summary(mkCtx(e.Callee, ctx.class, ls, e.Env))
 			if e.Callback {
 				continue
 			}
@@ -419,7 +437,7 @@ func (le *LockEngine) callEffect(ctx lockCtx, ins ssa.Instruction, ls int) map[i
 			out[ls] = true
 			continue
 		}
-		ex := le.summary(lockCtx{e.Callee, ctx.class, ls})
+		ex := le.summary(mkCtx(e.Callee, ctx.class, ls, e.Env))
 		if e.Callback {
 			for s := range ex {
 				if s != ls {
@@ -457,8 +475,8 @@ func (le *LockEngine) transfer(ctx lockCtx, ins ssa.Instruction, cur map[lstate]
 		}
 		return out
 	case *ssa.Go:
-		for _, e := range le.w.CG.SiteOut[ins] {
-			le.summaryRoot(lockCtx{e.Callee, ctx.class, LS0})
+		for _, e := range le.w.CG.CalleesCtx(ins, *ctx.env, le.w.TS) {
+			le.summaryRoot(mkCtx(e.Callee, ctx.class, LS0, e.Env))
 		}
 		return cur
 	case *ssa.Defer:
